@@ -205,3 +205,29 @@ mod verif_bitvec {
     } } }
     bv_len!(l0, 0, 12); bv_len!(l1, 1, 12); bv_len!(l3, 3, 12); bv_len!(l65, 65, 70);
 }
+//@@FILE crates/grafeo-core/src/storage/codec.rs
+#[cfg(kani)]
+mod verif_codec {
+    use super::*;
+    // BOUNDED (length 8 = the smallest input the selector compresses, and 9): the codec the selector picks is one whose
+    // precondition the data meets - DeltaBitPacked only for sorted input (its encoder saturates descending steps to 0),
+    // BitPacked only with a width every value fits.
+    fn check<const N: usize>() {
+        let v: [u64; N] = kani::any();
+        let c = CodecSelector::select_for_integers(&v);
+        match c {
+            CompressionCodec::DeltaBitPacked { bits } => {
+                let mut i = 1; while i < N { assert!(v[i - 1] <= v[i], "DeltaBitPacked chosen for unsorted input"); i += 1; }
+                let mut i = 1; while i < N { let d = v[i] - v[i - 1]; assert!(bits >= 64 || d < (1u64 << bits)); i += 1; }
+            }
+            CompressionCodec::BitPacked { bits } => {
+                let mut i = 0; while i < N { assert!(bits >= 64 || v[i] < (1u64 << bits)); i += 1; }
+            }
+            CompressionCodec::RunLength | CompressionCodec::None => {}
+            _ => assert!(false, "codec not valid for integers"),
+        }
+        kani::cover!(matches!(c, CompressionCodec::DeltaBitPacked { .. }));
+    }
+    #[kani::proof] #[kani::unwind(12)] fn selector_sound_len8() { check::<8>(); }
+    #[kani::proof] #[kani::unwind(13)] fn selector_sound_len9() { check::<9>(); }
+}
